@@ -6,16 +6,29 @@ PROP = dict(
     corr_theorems=(
         "b.* kinds compare the real Go outputs bit-for-bit with the Float run of the faithful models of lean/M3d/Model/Sdf.lean "
         "(sphereOut/circleOut, rectOut3/2, capsuleOut3/2, cylinderOut, coneOut, torusOut, tri2Out, segClosest3/2, triClosest/triDist, "
-        "meshScan+meshSign, profileSDF/profilePointSDF, colliderSDF); what those models compute over an exact field is stated by "
+        "meshScan+meshSign, profileSDF/profilePointSDF, colliderSDF, transformSDF3/2 and transformedColliderSDF3/2 over Xf3/Xf2 "
+        "= Translate/Scale/Rotation/JoinedTransform); what those models compute over an exact field is stated by "
         "M3d.C06.rect_sdf_exact/rect2_sdf_exact, sphere_sdf_exact/circle_sdf_exact, segment(2)_closest_optimal, "
         "triangle_closest_optimal + triangle_closest_regions, capsule(2)_sdf_exact, cylinder_normal_is_gradient, cylinder_cap_normal_outward, "
         "cone_normal_is_gradient (+cone_radial_unit_orth), torus_normal_is_gradient, profile_sdf_exact, profile_point_sdf_exact, "
-        "mesh_sdf_sign_parity, lipschitz_of_exact/lipschitz_signed_of_exact. x.* kinds print what those theorems require on exact "
+        "mesh_sdf_sign_parity, lipschitz_of_exact/lipschitz_signed_of_exact; b.coll/b.tcoll3/b.tcoll2 (ColliderToSDF, also over "
+        "TransformCollider): collider_sdf_brackets (the bisection returns +-res with |res - D| < D/2^(iters+1) for a threshold ball "
+        "query D <= r), transformed_collider(2)_sdf_brackets (the transformed collider's query |s| <= inv.ApplyDistance(r) is the "
+        "threshold query for D = k*|SDF(t^-1 c)|) and transformed_collider_sdf_vs_original (= k * the field of the original collider "
+        "at the mapped point up to k|s|/2^iters); b.tsdf3/b.tsdf2 (TransformSDF): transform(2)_sdf_exact (value = k*SDF(t^-1 c), same "
+        "sign, every point p maps to a point at k times the distance, so nearest points map to nearest points) with "
+        "joined_transform(2)_similarity (a JoinedTransform of Translate, Scale k != 0 and distance-preserving matrices multiplies "
+        "squared distances by k^2, Inverse() inverts it, ApplyDistance d = d*k, inverse d/k). x.* kinds print what those theorems require on exact "
         "(dyadic) inputs: x.rect3/x.rect2 = inside flag, exact squared distance to the reported point, value = exact face distance "
         "resp. minus the correctly rounded root of the exact squared distance, face of the normal, exact nearest point "
         "(rect_sdf_exact); x.seg3/x.seg2/x.tri3 = which end point / vertex is the exact minimiser (segClosestQ3 = segClosest3 by "
         "segment_closest_optimal; triClosestQ); x.tri2 = region and vertex distance of the 2-D triangle; x.mesh = the face returned "
-        "by the real FaceSDF attains the exact minimum of the squared triangle distances"
+        "by the real FaceSDF attains the exact minimum of the squared triangle distances; x.tsdf3/x.tsdf2 (Rect under dyadic "
+        "translations and power-of-two scalings, all float operations exact) = k * exact face distance inside, minus the correctly "
+        "rounded root of the exact squared distance times k outside (transform_sdf_exact + rect_sdf_exact); x.tcoll3/x.tcoll2 = 'ok' "
+        "iff the value returned by the real ColliderToSDF(TransformCollider(t, rect)) has the sign of containment of the inverse image "
+        "and lies in the bracket | |v| - D | * 2^(iters+1) < D of transformed_collider_sdf_brackets around the exact D = k * distance "
+        "(evaluated over the rationals, no tolerance)"
     ),
     rule=(
         "per case one shape instance (general position, axis aligned, dyadic, zero components; scales 1e-3..1e3; radius/length and "
@@ -23,7 +36,10 @@ PROP = dict(
         "and tips, points on the axes of symmetry, rim/edge points, points of the surface itself (PointSDF of a random point) and a "
         "hair off it, far away, special point + tiny/axis-aligned offset; meshes: rect, icosahedron, cone, cylinder and random soups "
         "(<= 40 faces) queried at vertices, near face centroids and at random; profiles over Circle/Rect/Capsule/polar mesh with "
-        "queries on/between/outside the z-planes; ColliderToSDF over Sphere/Rect/Capsule with 1..40 iterations. distinct = distinct "
+        "queries on/between/outside the z-planes; ColliderToSDF over Sphere/Rect/Capsule with 1..40 iterations; TransformSDF and "
+        "ColliderToSDF(TransformCollider) over Sphere/Circle, Rect, Capsule under a bare or joined (1..4 members) transform of "
+        "Translate, Scale (|k| < 1, > 1, negative, 1e-3..1e3) and Rotation, 2-D and 3-D, queried at images of inside/outside/"
+        "surface/special/far points; exact twins with dyadic Rect/translations and power-of-two scalings. distinct = distinct "
         "op lines; #stat counters record query classes, inside/outside, parity, gradient checks performed/skipped"
     ),
     trusted=[
@@ -31,7 +47,10 @@ PROP = dict(
         "harness/hlib/go2lean (typed, closed under calls, conservative) from model3d/model2d coords.go, matrix.go, primitives.go, "
         "shapes.go, transform.go; M3d.KernelsTie.Sdf.* re-prove against that text that the hand models of the vector algebra, "
         "OrthoBasis, Matrix3 det/inverse, NewSegment, Segment.Closest/Dist, Triangle.Normal, Sphere/Circle SDFs, Rect.Contains "
-        "(2-D and 3-D) are the functions the source defines now; the translator itself is validated on every run by executing "
+        "(2-D and 3-D), safeNormal, Sphere/Circle/Capsule(2-D,3-D)/Cylinder/Cone.Contains, Sphere.SphereCollision/Circle.CircleCollision "
+        "(= the threshold ball query |SDF| <= r), Min/Max of Rect/Sphere/Circle/Capsule, Matrix2 MulColumn/Inverse, and the members "
+        "of the transform model (Translate/Scale/Matrix{3,2}Transform Apply, ApplyDistance incl. d*|k|) "
+        "are the functions the source defines now; the translator itself is validated on every run by executing "
         "every exported generated definition at Float against the real function (kind gk, bit for bit)",
         "modelled, not verified: float64 arithmetic as exact field arithmetic with an exact square root (theorems are about the "
         "model over every linear ordered field with E.Exact; the tie to the floats is the bit-for-bit Float run of the same model)",
@@ -48,7 +67,15 @@ PROP = dict(
         "and the real pruned search is compared with it (b.mesh value bit-for-bit, x.mesh exact minimiser)",
         "ray-collision counts and InBounds of meshSDF come from the real collider (C07) and are inputs of the b.mesh line",
         "2-D Triangle: only the non-degenerate NewTriangle path (plain matrix inverse) is modelled",
-        "colliderSDF: faithful model + bits correspondence only (no bracket theorem); TransformSDF is C05",
+        "colliderSDF/transformedCollider: the bracket theorems assume the wrapped collider's ball query is |SDF(c)| <= r (the source "
+        "of Sphere/Circle is tied by KernelsTie; Rect/Capsule.SphereCollision have the same one-line body, covered by the b.tcoll/"
+        "b.coll correspondence) and 2^-iters < D <= 2^iters (outside that range only the faithful bit-for-bit model applies); "
+        "ColliderSolid.Contains (ray parity, C07) is an input of the b.coll/b.tcoll lines, its agreement with containment of the "
+        "inverse image is checked by x.tcoll (exact) and a Go-side predicate",
+        "transform members: Inverse() of Translate/Scale/Rotation/JoinedTransform is transcribed by hand (it returns an interface, "
+        "not translated); a Rotation enters as its matrix (NewMatrix3Rotation/NewMatrix2Rotation use sin/cos) and the theorems "
+        "assume it is distance preserving with Matrix.Inverse() its inverse (M3.Good; proved for every invertible matrix with "
+        "orthonormal columns); TransformSDF exposes only SDF (no PointSDF/NormalSDF in the library)",
         "Go-side predicates use tolerances (1e-7*scale distances, 1e-4 gradient) and are validation, not the deciding argument",
     ],
     assumptions=[
@@ -64,8 +91,12 @@ PROP = dict(
         "Cylinder side/caps, Cone slanted side (repaired formula; the pre-repair formula is proved NOT orthogonal) and Torus are "
         "unit, orthogonal to the face's tangent directions and outward; profileSDF^2 = min over side/caps of the squared distance "
         "and its sign; profilePointSDF point at the reported distance; mesh sign = bounds && odd parity; a distance-to-set function "
-        "(signed or not) is 1-Lipschitz. The models are tied to /repo on every run by bit-for-bit Float correspondence of SDF, "
-        "PointSDF, NormalSDF (BarycentricSDF, FaceSDF, Closest, Dist) of all these shapes in 2D and 3D plus exact-mode kinds."
+        "(signed or not) is 1-Lipschitz; TransformSDF under a similarity of factor k is k * SDF of the inverse image with nearest "
+        "points mapped to nearest points; ColliderToSDF's bisection brackets the threshold of the ball query within D/2^(iters+1), "
+        "and over TransformCollider that threshold is k * |SDF of the inverse image| (so it is k times the original collider's "
+        "field up to the bisection resolution). The models are tied to /repo on every run by bit-for-bit Float correspondence of SDF, "
+        "PointSDF, NormalSDF (BarycentricSDF, FaceSDF, Closest, Dist) of all these shapes in 2D and 3D, of TransformSDF and of "
+        "ColliderToSDF(TransformCollider) plus exact-mode kinds, and by the theorems of KernelsTieSdf over the regenerated kernels."
     ),
     level_note=(
         "Exactness over fields, not floats (rounding is not bounded); Cylinder/Cone/Torus distance values and OrthoBasis are tied by "
